@@ -176,7 +176,9 @@ impl Monitor for C17 {
         // mixed chain on r*r elements in which spatial layers follow dense layers (a looped range
         // may then begin with a spatial layer that is fed a flat tensor)
         let rep = ((idx / 40) % 4) as usize;
-        let acts = [Act::Tanh, Act::Sigmoid, Act::Linear, Act::Leaky, Act::Relu];
+        // (soft-max among the activations: the value passed on after a looped soft-max layer is
+        // still the accumulation of its k+1 outputs)
+        let acts = [Act::Tanh, Act::Sigmoid, Act::Linear, Act::Leaky, Act::Relu, Act::Tanh, Act::Softmax];
         let depth = rng.range(2, 5);
         let (kind, end_dense) = match rep {
             0 => (0, rng.bool()),
